@@ -33,7 +33,8 @@ def run(tier: str, seed: int) -> int:
     insts = []
     for kind in ("dense", "iso", "bd"):
         for j in range(n_per):
-            insts.append(markov.make_instance(rng, kind, K=(0 if j % 5 == 0 else None), zero_init=(j % 7 == 3)))
+            # dense: every other terminal-value instance and every fourth time series has cross-dimension coupling for sure
+            insts.append(markov.make_instance(rng, kind, K=(0 if j % 5 == 0 else None), zero_init=(j % 7 == 3), force_full=(kind == "dense" and j % 4 in (0, 2))))
     res, dropped, st, gen, fail = exact.eval_instances("MarkovSeqExact", [markov.tla_instance(i) for i in insts], invariants=["CheckAndPrint"], batch=10)
     rep.states += st
     rep.transitions += gen
